@@ -187,7 +187,7 @@ int main(int argc, char **argv) {
         std::cout << "REPLAY-OK" << std::endl; return 0;
     }
     // search-function space: smaller graphs, but every S
-    o.small_n = 4; o.max_exh_n = o.thorough ? 5 : 4; o.nrandom = o.thorough ? 300 : 60; o.rnd_max_n = 7; o.rnd_max_dim = 5;
+    o.small_n = 4; o.max_exh_n = o.thorough ? 5 : 4; o.nrandom = o.thorough ? 3000 : 60; o.rnd_max_n = 7; o.rnd_max_dim = 5;
     o.shuffles = 1;
     Stats st;
     Rng rr(o.seed + 99);
